@@ -808,6 +808,65 @@ func c03BigRings(r *engine.Run) {
 	}
 }
 
+// c03TJunctions: a hole (or a second member) whose apex lies on an edge of another ring at every
+// integer position of long edges (lengths 22, 26, 49: the position along the edge is p/L, not a
+// dyadic ratio, so a touch point that is recomputed instead of taken from the vertex comes out an
+// ulp off). Touching at one point is valid; every ring start and direction must agree.
+func c03TJunctions(r *engine.Run) {
+	sizes := []int{22, 26}
+	if r.Thorough() {
+		sizes = append(sizes, 49)
+	}
+	n := 0
+	type job struct {
+		rings [][]universe.LPt
+		multi bool
+	}
+	var jobs []job
+	for _, S := range sizes {
+		shell := []universe.LPt{{0, 0}, {S, 0}, {S, S}, {0, S}, {0, 0}}
+		for p := 2; p <= S-2; p++ {
+			// apex on each of the four shell edges, the hole inside
+			jobs = append(jobs,
+				job{[][]universe.LPt{shell, {{p, 0}, {p + 1, 3}, {p - 1, 3}, {p, 0}}}, false},
+				job{[][]universe.LPt{shell, {{S, p}, {S - 3, p + 1}, {S - 3, p - 1}, {S, p}}}, false},
+				job{[][]universe.LPt{shell, {{p, S}, {p - 1, S - 3}, {p + 1, S - 3}, {p, S}}}, false},
+				job{[][]universe.LPt{shell, {{0, p}, {3, p - 1}, {3, p + 1}, {0, p}}}, false},
+				// a second member outside, its apex on the bottom / right edge
+				job{[][]universe.LPt{shell, {{p, 0}, {p - 1, -3}, {p + 1, -3}, {p, 0}}}, true},
+				job{[][]universe.LPt{shell, {{S, p}, {S + 3, p - 1}, {S + 3, p + 1}, {S, p}}}, true})
+		}
+	}
+	id := universe.Identity
+	done := r.Parallel(len(jobs), func(i int) {
+		j := jobs[i]
+		if !j.multi {
+			g := id.Polygon(j.rings...).AsGeometry()
+			r.States.Add(1)
+			want, _ := c03Compare(r, g, "wkt", "hole apex on a long shell edge")
+			c03PolyOrbit(r, j.rings, want, "wkt")
+			return
+		}
+		for _, sr := range []bool{false, true} {
+			for _, hr := range []bool{false, true} {
+				for _, swap := range []bool{false, true} {
+					a, b := id.Polygon(rotateRing(j.rings[0], 1, sr)), id.Polygon(rotateRing(j.rings[1], 0, hr))
+					if swap {
+						a, b = b, a
+					}
+					g := geom.NewMultiPolygon([]geom.Polygon{a, b}).AsGeometry()
+					r.States.Add(1)
+					c03Compare(r, g, "wkt", "member apex on a long edge of another member")
+				}
+			}
+		}
+	})
+	n = len(jobs)
+	if done {
+		r.Bound(fmt.Sprintf("T-junctions on long edges: %d configurations (hole apex on each shell edge at every position of edges of length %v; a second member's apex on an edge) × every ring start and direction", n, sizes))
+	}
+}
+
 func c03NonFinite(r *engine.Run) {
 	shapes := universe.Shapes(1, 2)
 	bads := []float64{math.NaN(), math.Inf(1), math.Inf(-1)}
@@ -937,6 +996,7 @@ func c03Main(r *engine.Run) {
 	c03Multi(r)
 	c03MultiMany(r)
 	c03BigRings(r)
+	c03TJunctions(r)
 	c03Rings(r)
 }
 
